@@ -126,8 +126,8 @@ def configs(tier):
     out.append(dict(kind="rotcorr", dim=2))
     out.append(dict(kind="rotcorr", dim=3))
     quick = tier == "quick"
-    shapes2 = [[3, 4], [2, 2]] + ([] if quick else [[4, 3], [5, 5], [1, 3]])
-    shapes3 = [[2, 3, 2]] + ([] if quick else [[2, 2, 3]])
+    shapes2 = [[3, 4], [2, 2]] + ([] if quick else [[4, 3], [5, 5], [1, 3], [3, 1], [2, 5]])
+    shapes3 = [[2, 3, 2]] + ([] if quick else [[2, 2, 3], [1, 2, 2], [3, 2, 1]])
     for shape in shapes2:
         for dt in ("Coordinate", "Voxel", "VoxelCenter"):
             for payload in (("scalar", "vector", "series") if shape == [3, 4] else ("scalar",)):
